@@ -110,7 +110,7 @@ theorem assert_delivers {X : Setup} {a i : Nat} {T S : List Int} {C : List (Nat 
 
 section anchors
 variable {X : Setup} {TPx : TP} {sets : List (List Nat)} {a i : Nat} {T S : List Int} {C : List (Nat × Nat × Nat)}
-  {s : VMState} {v : Int}
+  {s : VMState} {v : Int} {d : Bool}
 
 theorem bare_oper {t : Nat} (he : Entry X a i T S C s) (hia : InstrAt X.p a (i0 t)) (ht : t < 64) :
     s.oper = ⟨t, false, false, false, false⟩ := by
@@ -127,7 +127,7 @@ theorem nothing_delivers (he : Entry X a i (T ++ [v]) S C s) (hia : InstrAt X.p 
 
 theorem beginning_delivers (he : Entry X a i (T ++ [v]) S C s) (hia : InstrAt X.p a (i0 opBeginning))
     (hf : ∃ w, VM.fetch X.p (a + 1) = .ok w) :
-    Delivers X (a + 1) T S S C (Spec.m X.se (.anchor .beginning) false ⟨i, C⟩) s := by
+    Delivers X (a + 1) T S S C (Spec.m X.se (.anchor .beginning) d ⟨i, C⟩) s := by
   have hoper := bare_oper he hia (by decide)
   have hop : Op.ofNat? s.oper.op = some .beginning := by rw [hoper]; rfl
   have hb : s.oper.back = false := by rw [hoper]
@@ -140,7 +140,7 @@ theorem beginning_delivers (he : Entry X a i (T ++ [v]) S C s) (hia : InstrAt X.
 
 theorem start_delivers (hrel : EnvRel TPx sets X.env X.se) (he : Entry X a i (T ++ [v]) S C s)
     (hia : InstrAt X.p a (i0 opStart)) (hf : ∃ w, VM.fetch X.p (a + 1) = .ok w) :
-    Delivers X (a + 1) T S S C (Spec.m X.se (.anchor .start) false ⟨i, C⟩) s := by
+    Delivers X (a + 1) T S S C (Spec.m X.se (.anchor .start) d ⟨i, C⟩) s := by
   have hoper := bare_oper he hia (by decide)
   have hop : Op.ofNat? s.oper.op = some .start := by rw [hoper]; rfl
   have hb : s.oper.back = false := by rw [hoper]
@@ -153,7 +153,7 @@ theorem start_delivers (hrel : EnvRel TPx sets X.env X.se) (he : Entry X a i (T 
 
 theorem end_delivers (hrel : EnvRel TPx sets X.env X.se) (hi : i ≤ X.se.n) (he : Entry X a i (T ++ [v]) S C s)
     (hia : InstrAt X.p a (i0 opEnd)) (hf : ∃ w, VM.fetch X.p (a + 1) = .ok w) :
-    Delivers X (a + 1) T S S C (Spec.m X.se (.anchor .end) false ⟨i, C⟩) s := by
+    Delivers X (a + 1) T S S C (Spec.m X.se (.anchor .end) d ⟨i, C⟩) s := by
   have hoper := bare_oper he hia (by decide)
   have hop : Op.ofNat? s.oper.op = some .end_ := by rw [hoper]; rfl
   have hb : s.oper.back = false := by rw [hoper]
@@ -166,7 +166,7 @@ theorem end_delivers (hrel : EnvRel TPx sets X.env X.se) (hi : i ≤ X.se.n) (he
 
 theorem bol_delivers (hrel : EnvRel TPx sets X.env X.se) (hi : i ≤ X.se.n) (he : Entry X a i (T ++ [v]) S C s)
     (hia : InstrAt X.p a (i0 opBol)) (hf : ∃ w, VM.fetch X.p (a + 1) = .ok w) :
-    Delivers X (a + 1) T S S C (Spec.m X.se (.anchor .bol) false ⟨i, C⟩) s := by
+    Delivers X (a + 1) T S S C (Spec.m X.se (.anchor .bol) d ⟨i, C⟩) s := by
   have hoper := bare_oper he hia (by decide)
   have hop : Op.ofNat? s.oper.op = some .bol := by rw [hoper]; rfl
   have hb : s.oper.back = false := by rw [hoper]
@@ -184,7 +184,7 @@ theorem bol_delivers (hrel : EnvRel TPx sets X.env X.se) (hi : i ≤ X.se.n) (he
 
 theorem eol_delivers (hrel : EnvRel TPx sets X.env X.se) (hi : i ≤ X.se.n) (he : Entry X a i (T ++ [v]) S C s)
     (hia : InstrAt X.p a (i0 opEol)) (hf : ∃ w, VM.fetch X.p (a + 1) = .ok w) :
-    Delivers X (a + 1) T S S C (Spec.m X.se (.anchor .eol) false ⟨i, C⟩) s := by
+    Delivers X (a + 1) T S S C (Spec.m X.se (.anchor .eol) d ⟨i, C⟩) s := by
   have hoper := bare_oper he hia (by decide)
   have hop : Op.ofNat? s.oper.op = some .eol := by rw [hoper]; rfl
   have hb : s.oper.back = false := by rw [hoper]
@@ -203,7 +203,7 @@ theorem eol_delivers (hrel : EnvRel TPx sets X.env X.se) (hi : i ≤ X.se.n) (he
 
 theorem endz_delivers (hrel : EnvRel TPx sets X.env X.se) (hi : i ≤ X.se.n) (he : Entry X a i (T ++ [v]) S C s)
     (hia : InstrAt X.p a (i0 opEndZ)) (hf : ∃ w, VM.fetch X.p (a + 1) = .ok w) :
-    Delivers X (a + 1) T S S C (Spec.m X.se (.anchor (if TPx.strict then .end else .endz)) false ⟨i, C⟩) s := by
+    Delivers X (a + 1) T S S C (Spec.m X.se (.anchor (if TPx.strict then .end else .endz)) d ⟨i, C⟩) s := by
   have hoper := bare_oper he hia (by decide)
   have hop : Op.ofNat? s.oper.op = some .endz := by rw [hoper]; rfl
   have hb : s.oper.back = false := by rw [hoper]
@@ -259,7 +259,7 @@ theorem isBoundary_spec (hrel : EnvRel TPx sets X.env X.se) (hi : i ≤ X.se.n) 
 
 theorem boundary_delivers (hrel : EnvRel TPx sets X.env X.se) (hi : i ≤ X.se.n) (he : Entry X a i (T ++ [v]) S C s)
     (hia : InstrAt X.p a (i0 opBoundary)) (hf : ∃ w, VM.fetch X.p (a + 1) = .ok w) :
-    Delivers X (a + 1) T S S C (Spec.m X.se (.anchor .boundary) false ⟨i, C⟩) s := by
+    Delivers X (a + 1) T S S C (Spec.m X.se (.anchor .boundary) d ⟨i, C⟩) s := by
   have hoper := bare_oper he hia (by decide)
   have hop : Op.ofNat? s.oper.op = some .boundary := by rw [hoper]; rfl
   have hb : s.oper.back = false := by rw [hoper]
@@ -271,7 +271,7 @@ theorem boundary_delivers (hrel : EnvRel TPx sets X.env X.se) (hi : i ≤ X.se.n
 
 theorem nonboundary_delivers (hrel : EnvRel TPx sets X.env X.se) (hi : i ≤ X.se.n) (he : Entry X a i (T ++ [v]) S C s)
     (hia : InstrAt X.p a (i0 opNonboundary)) (hf : ∃ w, VM.fetch X.p (a + 1) = .ok w) :
-    Delivers X (a + 1) T S S C (Spec.m X.se (.anchor .nonboundary) false ⟨i, C⟩) s := by
+    Delivers X (a + 1) T S S C (Spec.m X.se (.anchor .nonboundary) d ⟨i, C⟩) s := by
   have hoper := bare_oper he hia (by decide)
   have hop : Op.ofNat? s.oper.op = some .nonboundary := by rw [hoper]; rfl
   have hb : s.oper.back = false := by rw [hoper]
@@ -286,7 +286,7 @@ theorem nonboundary_delivers (hrel : EnvRel TPx sets X.env X.se) (hi : i ≤ X.s
 theorem bare_delivers (hrel : EnvRel TPx sets X.env X.se) (hi : i ≤ X.se.n) {t : Nat} {pat : Spec.Pat}
     (hp : bareToPat TPx t = some pat) (ht : ¬ t = opUpdateBumpalong) (he : Entry X a i (T ++ [v]) S C s)
     (hia : InstrAt X.p a (i0 t)) (hf : ∃ w, VM.fetch X.p (a + 1) = .ok w) :
-    Delivers X (a + 1) T S S C (Spec.m X.se pat false ⟨i, C⟩) s := by
+    Delivers X (a + 1) T S S C (Spec.m X.se pat d ⟨i, C⟩) s := by
   unfold bareToPat at hp
   split at hp
   · next h => cases hp; rw [beq_iff_eq.1 h] at hia; simpa [Spec.m] using nothing_delivers he hia
@@ -347,11 +347,45 @@ variable {X : Setup} {TPx : TP} {sets : List (List Nat)} {a i : Nat} {T S : List
 
 theorem caseChar_delivers (hrel : EnvRel TPx sets X.env X.se) (hi : i ≤ X.se.n) (he : Entry X a i (T ++ [v]) S C s)
     {sel : Nat} {x : Int} {P : Spec.Pred} {ins : Instr} (hia : InstrAt X.p a ins) (hx : ins.args[0]? = some x)
-    (hbody : VM.body X.p X.env s = VM.caseChar X.p X.env sel s) (hrtl : s.oper.rtl = false)
+    (hbody : VM.body X.p X.env s = VM.caseChar X.p X.env sel s) {d : Bool} (hrtl : s.oper.rtl = d)
     (hpred : PredOk X sel x P) (hf : ∃ w, VM.fetch X.p (a + 2) = .ok w) :
-    Delivers X (a + 2) T S S C (Spec.m X.se (.chr P) false ⟨i, C⟩) s := by
+    Delivers X (a + 2) T S S C (Spec.m X.se (.chr P) d ⟨i, C⟩) s := by
   obtain ⟨pred, hcp, hpr⟩ := hpred
   have hop := hia.operand he.pc 0 x hx
+  cases d with
+  | true =>
+    by_cases hpos : 0 < i
+    · obtain ⟨c, hc, hch⟩ := charAt_lt hrel (i - 1) (by omega)
+      have e1 : (i : Int) - 1 = ((i - 1 : Nat) : Int) := by omega
+      have hfc : ¬ (VM.forwardchars X.env s < 1) := by
+        simp only [VM.forwardchars, hrtl, if_true, he.tp]; omega
+      have hfn : VM.forwardcharnext X.env true (i : Int) = .ok (c, (i : Int) - 1) := by
+        simp [VM.forwardcharnext, e1, hch, Except.map]
+      have hi0 : ¬ i = 0 := by omega
+      have hm : Spec.m X.se (.chr P) true ⟨i, C⟩ = if P.test X.se c then [⟨i - 1, C⟩] else [] := by
+        simp [Spec.m, Spec.stepChar, hc, hi0]
+      rw [hm, ← hpr c]
+      by_cases hpc : pred c = true
+      · have hb : VM.body X.p X.env s = .ok (VM.textto s ((i : Int) - 1), .advance 1) := by
+          rw [hbody]; unfold VM.caseChar
+          simp only [hfc, if_false, bind, Except.bind, hop, hcp, hrtl, he.tp, hfn, hpc, if_true, pure, Except.pure]
+        rw [if_pos hpc]
+        exact deliver_one (k := 1) he hb rfl rfl rfl rfl (by simp [VM.textto, e1]) hf
+      · have hb : VM.body X.p X.env s = .ok (VM.textto s ((i : Int) - 1), .back) := by
+          rw [hbody]; unfold VM.caseChar
+          simp only [hfc, if_false, bind, Except.bind, hop, hcp, hrtl, he.tp, hfn, hpc, pure, Except.pure]
+          simp
+        rw [if_neg hpc]
+        exact deliver_none he hb rfl rfl rfl
+    · have hi0 : i = 0 := by omega
+      have hfc : VM.forwardchars X.env s < 1 := by
+        simp only [VM.forwardchars, hrtl, if_true, he.tp]; omega
+      have hb : VM.body X.p X.env s = .ok (s, .back) := by
+        rw [hbody]; unfold VM.caseChar; simp only [hfc, if_true]
+      have hm : Spec.m X.se (.chr P) true ⟨i, C⟩ = [] := by simp [Spec.m, Spec.stepChar, hi0]
+      rw [hm]
+      exact deliver_none he hb rfl rfl rfl
+  | false =>
   by_cases hlt : i < X.se.n
   · obtain ⟨c, hc, hch⟩ := charAt_lt hrel i hlt
     have hfc : ¬ (VM.forwardchars X.env s < 1) := by
@@ -438,9 +472,57 @@ theorem cmpBack_spec (hrel : EnvRel TPx sets X.env X.se) (str : List Nat) (i : N
       simp [this]
 
 theorem multi_delivers (hrel : EnvRel TPx sets X.env X.se) (hi : i ≤ X.se.n) (he : Entry X a i (T ++ [v]) S C s)
-    {k : Nat} {str : List Nat} (hia : InstrAt X.p a (i1 (opMulti ||| bits false false) (k : Int)))
+    {k : Nat} {str : List Nat} {d : Bool} (hia : InstrAt X.p a (i1 (opMulti ||| bits d false) (k : Int)))
     (hstr : X.p.strings[k]? = some str) (hf : ∃ w, VM.fetch X.p (a + 2) = .ok w) :
-    Delivers X (a + 2) T S S C (Spec.m X.se (nestSeq (str.map (fun r => .chr (.one r false)))) false ⟨i, C⟩) s := by
+    Delivers X (a + 2) T S S C (Spec.m X.se (nestSeq (str.map (fun r => .chr (.one r false)))) d ⟨i, C⟩) s := by
+  cases d with
+  | true =>
+    have hoper : s.oper = ⟨opMulti, true, false, false, false⟩ := by
+      rw [he.oper hia]; exact (decode_bits opMulti (by decide) true false).2
+    have hop : Op.ofNat? s.oper.op = some .multi := by rw [hoper]; rfl
+    have hb : s.oper.back = false := by rw [hoper]
+    have hb2 : s.oper.back2 = false := by rw [hoper]
+    have hrtl : s.oper.rtl = true := by rw [hoper]
+    have hci : s.oper.ci = false := by rw [hoper]
+    have hk0 : (0 : Int) ≤ (k : Int) := by omega
+    rw [m_multi_rtl]
+    by_cases hlen : str.length ≤ i
+    · have hfc : ¬ (VM.forwardchars X.env s < (str.length : Int)) := by
+        simp only [VM.forwardchars, hrtl, if_true, he.tp]; omega
+      have hcmp := cmpBack_spec hrel str (i - str.length) str.length (Nat.le_refl _) (by omega)
+      have epos : ((i - str.length + str.length : Nat) : Int) = (i : Int) := by omega
+      rw [List.take_length, epos] at hcmp
+      have hrm : VM.runematch X.env s str =
+          .ok (if (X.se.text.drop (i - str.length)).take str.length = str then some ((i : Int) - (str.length : Int)) else none) := by
+        unfold VM.runematch
+        simp only [hfc, if_false, hrtl, if_true, hci, he.tp]
+        rw [hcmp]
+        by_cases heq : (X.se.text.drop (i - str.length)).take str.length = str
+        · simp [heq]
+        · simp [heq]
+      by_cases heq : (X.se.text.drop (i - str.length)).take str.length = str
+      · rw [if_pos heq] at hrm
+        rw [if_pos ⟨hlen, heq⟩]
+        have hbody : VM.body X.p X.env s = .ok (VM.textto s ((i : Int) - (str.length : Int)), .advance 1) := by
+          simp only [body, hop, modeOf, hb, hb2, caseMulti, bind, Except.bind, hia.operand he.pc 0 (k : Int) rfl, hk0,
+            if_true, Int.toNat_natCast, hstr, hrm, pure, Except.pure]
+        exact deliver_one (k := 1) he hbody rfl rfl rfl rfl (by simp [VM.textto]; omega) hf
+      · rw [if_neg heq] at hrm
+        rw [if_neg (fun h => heq h.2)]
+        have hbody : VM.body X.p X.env s = .ok (s, .back) := by
+          simp only [body, hop, modeOf, hb, hb2, caseMulti, bind, Except.bind, hia.operand he.pc 0 (k : Int) rfl, hk0,
+            if_true, Int.toNat_natCast, hstr, hrm, pure, Except.pure]
+        exact deliver_none he hbody rfl rfl rfl
+    · have hfc : VM.forwardchars X.env s < (str.length : Int) := by
+        simp only [VM.forwardchars, hrtl, if_true, he.tp]; omega
+      have hrm : VM.runematch X.env s str = .ok none := by
+        unfold VM.runematch; simp only [hfc, if_true]
+      rw [if_neg (fun h => hlen h.1)]
+      have hbody : VM.body X.p X.env s = .ok (s, .back) := by
+        simp only [body, hop, modeOf, hb, hb2, caseMulti, bind, Except.bind, hia.operand he.pc 0 (k : Int) rfl, hk0,
+          if_true, Int.toNat_natCast, hstr, hrm, pure, Except.pure]
+      exact deliver_none he hbody rfl rfl rfl
+  | false =>
   have hoper : s.oper = ⟨opMulti, false, false, false, false⟩ := by
     rw [he.oper hia]; exact (decode_bits opMulti (by decide) false false).2
   have hop : Op.ofNat? s.oper.op = some .multi := by rw [hoper]; rfl
